@@ -193,6 +193,7 @@ def run(prog: Program, chk: Check) -> None:
     chk.call(k5, prog, chk)
     chk.call(k6, prog, chk)
     chk.call(k7, prog, chk)
+    chk.call(k8, prog, chk)
 
 
 def k4(prog: Program, chk: Check) -> None:
@@ -510,3 +511,13 @@ def _normalised(du: DefUse, nid: int, v: ast.AST):
         last = src.endswith("[-1]") and "states" in src
         return last, (f"X = {src}" if last else f"X = {src} is not the last recorded state")
     return True, f"X = {norm(num)}"
+
+
+def k8(prog: Program, chk: Check) -> None:
+    chk.rule("K8", "the imaginary-time coefficients are second differences of eta_function with "
+             "tau = -i*tau_M, tau_M up to 1/T: the thermal eta kernel beyond its overflow guard "
+             "keeps every term that is not bounded by exp(-w/T) on the imaginary-time axis, where "
+             "exp(+i*w*tau) is as large as exp(w/T) (a dropped term there makes the Gibbs state "
+             "of a low-temperature bath wrong)", floor=1)
+    from rules.c12 import guard_limits
+    guard_limits(prog, chk, "K8", quals=("CustomSD.eta_function",))
